@@ -1,105 +1,176 @@
-"""C13 / C15 on the real code, as metamorphic relations between two exact (SymPy rational) runs of block_diagonalize:
-scale, permute / merge / pad parameters, shift of H_0, complex conjugation, relabelling of blocks."""
+"""C13 / C15 on the real code, as metamorphic relations between two runs of block_diagonalize on random accepted problems
+(floating point, dense or sparse carriers, relative tolerance 1e-9; every 7th case exact through SymPy rationals):
+
+C13  scale each parameter; permute parameters; merge two parameters into one; pad with a vanishing parameter; substitute lambda -> lambda^p
+C15  relabel blocks; permute basis states (masks and designations follow); rotate the basis inside degenerate levels of H_0; complex
+     conjugation; shift H_0 by c*1 (shifts only order zero of H_tilde); scale the whole Hamiltonian by s > 0 (U unchanged, H_tilde scaled);
+     direct sum of two decoupled problems (result = direct sum of the results)
+Every element of H_tilde, U, U† of the transformed run is compared with the transformed element of the base run, Hermitian and
+non-Hermitian algorithm (the latter only on problems whose kept pairs are degenerate, where the shipped recurrences are right — finding D5)."""
 import os, sys; sys.path.insert(0, os.path.dirname(os.path.abspath(__file__)))
 from common import case_rnd, skip
-import sys, os, json, random, itertools, copy, warnings
+import json, itertools, copy, warnings
 from fractions import Fraction
+from functools import reduce
+import numpy as np, sympy
+from scipy import sparse
 warnings.simplefilter("ignore")
-sys.path.insert(0, os.path.dirname(os.path.abspath(__file__)))
+from pymablock import block_diagonalize
+from pymablock.series import zero, one
 import bd_corr as B
 
-Z = (Fraction(0), Fraction(0))
-def zeros(d): return [[Z] * d for _ in range(d)]
-def madd(A, Bm): return [[(x[0] + y[0], x[1] + y[1]) for x, y in zip(r1, r2)] for r1, r2 in zip(A, Bm)]
-def mscale(A, c): return [[(x[0] * c, x[1] * c) for x in r] for r in A]
-def mconj(A): return [[(x[0], -x[1]) for x in r] for r in A]
+TRANSFORMS = ["scale", "permute-parameters", "merge-parameters", "pad-parameter", "power-substitution", "relabel-blocks", "permute-states",
+              "degenerate-rotation", "conjugate", "shift", "scale-whole", "direct-sum"]
 
-def outputs(P, maxn):
-    reqs = [(nm, i, j, n) for n in itertools.product(*[range(m + 1) for m in maxn]) for nm in ("H_tilde", "U", "U†") for i in range(P["N"]) for j in range(P["N"])]
-    impl = B.run_impl(P, reqs); d = P["d"]; whole = {}
-    for r, a in zip(reqs, impl):
-        if a[0] in ("exc", "err"): raise RuntimeError(str(a))
-        key = (r[0], tuple(r[3]))
-        whole[key] = madd(whole.get(key, zeros(d)), a[1]) if a[0] != "zero" else whole.get(key, zeros(d))
-    return whole
+def to_np(m): return np.array([[complex(float(z[0]), float(z[1])) for z in row] for row in m])
 
-TRANSFORMS = ["scale", "permute-parameters", "merge-parameters", "pad-parameter", "shift", "conjugate", "relabel-blocks"]
+def problem(rnd, hermitian, k=None):
+    while True:
+        P = B.gen_problem(rnd, hermitian)
+        if k is not None and P["k"] != k: continue
+        if not hermitian and B.d5_class(P): continue
+        if max(abs(e[0]) for e in [P["terms"][(0,) * P["k"]][a][a] for a in range(P["d"])]) > 1000: continue   # keep the offset stratum out of the rotations
+        return dict(d=P["d"], N=P["N"], k=P["k"], sizes=list(P["sizes"]), blocks=list(P["blocks"]), hermitian=hermitian,
+                    terms={n: to_np(m) for n, m in P["terms"].items()}, fd=copy.deepcopy(P["fd_py"]), ser=B.ser_problem(P))
+
+def run(Q, maxn, exact=False, carrier="dense", vectors=None):
+    """all elements up to maxn, assembled into full d x d arrays"""
+    d = Q["d"]; N = Q["N"]; blocks = Q["blocks"]
+    idx = [[a for a in range(d) if blocks[a] == b] for b in range(N)]
+    if exact:
+        S = lambda m: sympy.Matrix(d, d, lambda a, b: sympy.nsimplify(m[a, b].real, rational=True) + sympy.I * sympy.nsimplify(m[a, b].imag, rational=True))
+        H = {n: S(m) for n, m in Q["terms"].items()}
+    else:
+        real = all(np.abs(m.imag).max() == 0 for m in Q["terms"].values())
+        conv = (lambda m: sparse.csr_array(m)) if carrier == "sparse" else (lambda m: m)
+        H = {n: conv(m.real.copy() if real else m) for n, m in Q["terms"].items()}
+    kw = dict(subspace_eigenvectors=vectors) if vectors is not None else dict(subspace_indices=blocks)
+    Ht, U, Ui = block_diagonalize(H, fully_diagonalize=Q["fd"], hermitian=Q["hermitian"], **kw)
+    out = {}
+    for name, S_ in (("H_tilde", Ht), ("U", U), ("U_inv", Ui)):
+        for n in itertools.product(*[range(m + 1) for m in maxn]):
+            full = np.zeros((d, d), dtype=complex)
+            for i in range(N):
+                for j in range(N):
+                    v = S_[(i, j) + n]
+                    if v is zero: continue
+                    if v is one: v = np.eye(len(idx[i]))
+                    if isinstance(v, sympy.MatrixBase): v = np.array(v.tolist(), dtype=complex)
+                    if hasattr(v, "toarray"): v = v.toarray()
+                    full[np.ix_(idx[i], idx[j])] = np.asarray(v, dtype=complex)
+            out[(name, n)] = full
+    return out
 
 def main(seed, ncases, driver, out):
-    rnd = random.Random(seed); failures = []; dist = {}; samples = []; evals = 0; distinct = 0
+    failures = []; dist = {}; samples = []; evals = 0; distinct = 0; worst = 0.0
     for c in range(ncases):
         if skip(c): continue
-        rnd = case_rnd(seed, c)
-        tr = TRANSFORMS[c % len(TRANSFORMS)]
-        while True:
-            P = B.gen_problem(rnd, True)
-            if tr in ("permute-parameters", "merge-parameters") and P["k"] != 2: continue
-            if tr == "pad-parameter" and P["k"] != 1: continue
-            break
-        k = P["k"]; d = P["d"]; maxn = (2,) if k == 1 else (2, 2)
-        Q = copy.deepcopy({x: P[x] for x in P if x != "_series"}); maxq = maxn; rel = None
-        if tr == "scale":
-            cs = [Fraction(rnd.choice([2, -1, 3]), rnd.choice([1, 2])) for _ in range(k)]
-            fac = lambda n: Fraction(1) if not any(n) else __import__("functools").reduce(lambda x, y: x * y, [cs[i] ** n[i] for i in range(k)])
-            Q["terms"] = {n: mscale(m, fac(n)) for n, m in P["terms"].items()}
-            rel = lambda base, name, n: mscale(base[(name, n)], fac(n))
-        elif tr == "permute-parameters":
-            Q["terms"] = {(n[1], n[0]): m for n, m in P["terms"].items()}
-            rel = lambda base, name, n: base[(name, (n[1], n[0]))]
-        elif tr == "merge-parameters":
-            Q["k"] = 1; T = {}
-            for n, m in P["terms"].items(): T[(sum(n),)] = madd(T.get((sum(n),), zeros(d)), m)
-            Q["terms"] = T; maxq = (2,)
-            rel = lambda base, name, n: __import__("functools").reduce(madd, [base[(name, (a, n[0] - a))] for a in range(n[0] + 1)])
-        elif tr == "pad-parameter":
-            Q["k"] = 2; Q["terms"] = {n + (0,): m for n, m in P["terms"].items()}; maxq = (2, 1)
-            rel = lambda base, name, n: base[(name, (n[0],))] if n[1] == 0 else zeros(d)
-        elif tr == "shift":
-            cshift = Fraction(rnd.choice([1, -2, 5]), rnd.choice([1, 3])); z = (0,) * k
-            while all(P["terms"][z][a][a][0] + cshift == 0 for a in range(d)): cshift += 1      # H_0 = 0 is (rightly) rejected
-            Q["terms"] = dict(P["terms"]); Q["terms"][z] = [[(x[0] + (cshift if a == b else 0), x[1]) for b, x in enumerate(r)] for a, r in enumerate(P["terms"][z])]
-            def rel(base, name, n):
-                m = base[(name, n)]
-                if name == "H_tilde" and not any(n): m = [[(x[0] + (cshift if a == b else 0), x[1]) for b, x in enumerate(r)] for a, r in enumerate(m)]
-                return m
-        elif tr == "conjugate":
-            Q["terms"] = {n: mconj(m) for n, m in P["terms"].items()}
-            rel = lambda base, name, n: mconj(base[(name, n)])
-        elif tr == "relabel-blocks":
-            perm = list(range(P["N"])); rnd.shuffle(perm)
-            Q["blocks"] = [perm[b] for b in P["blocks"]]
-            inv = [perm.index(b) for b in range(P["N"])]
-            Q["sizes"] = [P["sizes"][inv[b]] for b in range(P["N"])]
-            # states are not moved, so block b of Q is a scattered set of states only if perm is not monotone: keep a
-            # contiguous layout by permuting the states as well
-            order = [a for b in range(P["N"]) for a in range(d) if Q["blocks"][a] == b]
-            pm = lambda m: [[m[order[a]][order[b]] for b in range(d)] for a in range(d)]
-            Q["terms"] = {n: pm(m) for n, m in P["terms"].items()}; Q["blocks"] = sorted(Q["blocks"])
-            off = [0]
-            for s_ in Q["sizes"]: off.append(off[-1] + s_)
-            Q["off"] = off
-            if P["fd"]["kind"] == "tuple":
-                Q["fd"] = {"kind": "tuple", "blocks": sorted(perm[b] for b in P["fd"]["blocks"])}; Q["fd_py"] = tuple(Q["fd"]["blocks"])
-            elif P["fd"]["kind"] == "dict":
-                Q["fd_py"] = {perm[b]: v for b, v in P["fd_py"].items()}
-                Q["fd"] = {"kind": "dict", "masks": []}
-            rel = lambda base, name, n: pm(base[(name, n)])
-        key = tr; dist[key] = dist.get(key, 0) + 1
-        desc = {"transform": tr, "problem": B.ser_problem(P)}
-        if len(samples) < 2: samples.append(desc)
+        rnd = case_rnd(seed, c); tr = TRANSFORMS[c % len(TRANSFORMS)]; exact = (c % 7 == 3)
+        hermitian = rnd.random() < 0.75
+        needk = 2 if tr in ("permute-parameters", "merge-parameters") else (1 if tr in ("pad-parameter", "power-substitution") else None)
+        P = problem(rnd, hermitian, needk); k, d, N = P["k"], P["d"], P["N"]
+        maxn = (3,) if k == 1 else (2, 2)
+        if exact: maxn = (2,) if k == 1 else (1, 1)
+        Q = copy.deepcopy(P); maxq = maxn; vectors = None; rel = None
+        rng = np.random.default_rng(rnd.randrange(2**31)); carrier = rnd.choice(["dense", "sparse"])
         try:
-            base = outputs(P, maxn); other = outputs(Q, maxq)
+            if tr == "scale":
+                cs = [rnd.choice([2.0, -1.0, 0.5, 3.0]) for _ in range(k)]; fac = lambda n: float(np.prod([cs[i] ** n[i] for i in range(k)]))
+                Q["terms"] = {n: m * fac(n) for n, m in P["terms"].items()}
+                rel = lambda base, name, n: base[(name, n)] * fac(n)
+            elif tr == "permute-parameters":
+                Q["terms"] = {(n[1], n[0]): m for n, m in P["terms"].items()}
+                rel = lambda base, name, n: base[(name, (n[1], n[0]))]
+            elif tr == "merge-parameters":
+                Q["k"] = 1; T = {}
+                for n, m in P["terms"].items(): T[(sum(n),)] = T.get((sum(n),), 0) + m
+                Q["terms"] = T; maxq = (maxn[0],)
+                rel = lambda base, name, n: sum(base[(name, (a, n[0] - a))] for a in range(n[0] + 1))
+            elif tr == "pad-parameter":
+                Q["k"] = 2; Q["terms"] = {n + (0,): m for n, m in P["terms"].items()}; maxq = (maxn[0], 1)
+                rel = lambda base, name, n: base[(name, (n[0],))] if n[1] == 0 else np.zeros((d, d))
+            elif tr == "power-substitution":
+                p_ = 2; Q["terms"] = {(n[0] * p_,): m for n, m in P["terms"].items()}; maxq = (min(2 * maxn[0], 4),)
+                rel = lambda base, name, n: base[(name, (n[0] // p_,))] if n[0] % p_ == 0 else np.zeros((d, d))
+            elif tr in ("relabel-blocks", "permute-states"):
+                if tr == "relabel-blocks":
+                    perm = list(range(N)); rnd.shuffle(perm); Q["blocks"] = [perm[b] for b in P["blocks"]]
+                    if isinstance(P["fd"], dict): Q["fd"] = {perm[b]: v for b, v in P["fd"].items()}
+                    else: Q["fd"] = tuple(sorted(perm[b] for b in P["fd"]))
+                    rel = lambda base, name, n: base[(name, n)]                     # same states, only the names of the blocks change
+                else:
+                    sigma = list(range(d)); rnd.shuffle(sigma)                       # new position a holds old state sigma[a]
+                    Q["terms"] = {n: m[np.ix_(sigma, sigma)] for n, m in P["terms"].items()}
+                    Q["blocks"] = [P["blocks"][sigma[a]] for a in range(d)]
+                    if isinstance(P["fd"], dict):
+                        newfd = {}
+                        for b, mask in P["fd"].items():
+                            old = [a for a in range(d) if P["blocks"][a] == b]; new = [a for a in range(d) if Q["blocks"][a] == b]
+                            pos = [old.index(sigma[a]) for a in new]; newfd[b] = np.asarray(mask)[np.ix_(pos, pos)]
+                        Q["fd"] = newfd
+                    rel = lambda base, name, n: base[(name, n)][np.ix_(sigma, sigma)]
+            elif tr == "degenerate-rotation":
+                if isinstance(P["fd"], dict): P["fd"] = tuple(P["fd"]); Q["fd"] = P["fd"]
+                E = np.diag(P["terms"][(0,) * k]); R = np.eye(d, dtype=complex); cplx = any(np.abs(m.imag).max() > 0 for m in P["terms"].values())
+                for b in range(N):
+                    for e in set(E[a] for a in range(d) if P["blocks"][a] == b):
+                        g = [a for a in range(d) if P["blocks"][a] == b and E[a] == e]
+                        if len(g) >= 2:
+                            z = rng.normal(size=(len(g), len(g))) + (1j * rng.normal(size=(len(g), len(g))) if cplx else 0); q, _ = np.linalg.qr(z); R[np.ix_(g, g)] = q
+                Q["terms"] = {n: R.conj().T @ m @ R for n, m in P["terms"].items()}; Q["terms"][(0,) * k] = P["terms"][(0,) * k]
+                rel = lambda base, name, n: R.conj().T @ base[(name, n)] @ R
+            elif tr == "conjugate":
+                Q["terms"] = {n: m.conj() for n, m in P["terms"].items()}
+                rel = lambda base, name, n: base[(name, n)].conj()
+            elif tr == "shift":
+                cshift = rnd.choice([1.0, -2.5, 7.0, 0.125]); z = (0,) * k
+                Q["terms"] = dict(P["terms"]); Q["terms"][z] = P["terms"][z] + cshift * np.eye(d)
+                if np.abs(np.diag(Q["terms"][z])).max() == 0: Q["terms"][z] = Q["terms"][z] + np.eye(d); cshift += 1
+                rel = lambda base, name, n: base[(name, n)] + (cshift * np.eye(d) if name == "H_tilde" and not any(n) else 0)
+            elif tr == "scale-whole":
+                s_ = rnd.choice([2.0, 0.5, 4.0]); Q["terms"] = {n: s_ * m for n, m in P["terms"].items()}
+                rel = lambda base, name, n: base[(name, n)] * (s_ if name == "H_tilde" else 1.0)
+            elif tr == "direct-sum":
+                if not hermitian:       # dropping `fully_diagonalize` from a part could move it into the class of finding D5
+                    hermitian = True; P = problem(rnd, True, k); d, N = P["d"], P["N"]; Q = copy.deepcopy(P)
+                P2 = problem(rnd, hermitian, k)
+                for X in (P, P2):      # a single block is fully diagonalised by default: make that explicit before merging
+                    if X["N"] == 1 and not isinstance(X["fd"], dict) and not len(X["fd"]): X["fd"] = (0,)
+                if isinstance(P["fd"], dict) or isinstance(P2["fd"], dict): P["fd"] = tuple(P["fd"]); P2["fd"] = tuple(P2["fd"])
+                M = max(N, P2["N"]); d2 = P2["d"]
+                def dsum(a, b2):
+                    out_ = np.zeros((d + d2, d + d2), dtype=complex); out_[:d, :d] = a; out_[d:, d:] = b2; return out_
+                keys = set(P["terms"]) | set(P2["terms"])
+                T = {n: dsum(P["terms"].get(n, np.zeros((d, d))), P2["terms"].get(n, np.zeros((d2, d2)))) for n in keys}
+                # keep the two halves spectrally apart so that the merged blocks share no level they did not share before
+                T[(0,) * k] = dsum(P["terms"][(0,) * k], P2["terms"][(0,) * k] + 37 * np.eye(d2))
+                P2s = copy.deepcopy(P2); P2s["terms"][(0,) * k] = P2["terms"][(0,) * k] + 37 * np.eye(d2)
+                # a merged block is fully diagonalised iff both parts are; a single-block part is fully diagonalised by default and cannot be switched off
+                fa, fb = set(P["fd"]), set(P2["fd"])
+                for b in range(min(N, P2["N"])):
+                    if (b in fa) != (b in fb):
+                        if b == 0 and (N == 1 or P2["N"] == 1): fa.add(0); fb.add(0)
+                        else: fa.discard(b); fb.discard(b)
+                P["fd"] = tuple(sorted(fa)); P2s["fd"] = tuple(sorted(fb)); fdsum = tuple(sorted(fa | fb))
+                Q = dict(d=d + d2, N=M, k=k, sizes=None, blocks=P["blocks"] + P2["blocks"], hermitian=hermitian, terms=T, fd=fdsum, ser=P["ser"])
+                base2 = run(P2s, maxn, carrier=carrier)
+                rel = lambda base, name, n: dsum(base[(name, n)], base2[(name, n)])
+            dist[tr + (" (exact)" if exact else "")] = dist.get(tr + (" (exact)" if exact else ""), 0) + 1
+            desc = {"case": c, "transform": tr, "exact": exact, "hermitian": hermitian, "carrier": carrier, "problem": P["ser"]}
+            if len(samples) < 2: samples.append(desc)
+            base = run(P, maxn, exact=exact, carrier=carrier); other = run(Q, maxq, exact=exact, carrier=carrier, vectors=vectors)
         except Exception as e:
-            failures.append(dict(desc, kind="implementation-raises", error=type(e).__name__ + ": " + str(e)[:150])); continue
+            failures.append({"case": c, "transform": tr, "kind": "implementation-raises", "error": type(e).__name__ + ": " + str(e)[:200], "problem": P["ser"]}); continue
         bad = None
         for (name, n), m in other.items():
-            evals += 1
             try: want = rel(base, name, n)
             except KeyError: continue
-            if m != want: bad = bad or {"kind": "relation-fails", "series": name, "order": list(n)}
+            evals += 1; err = float(np.abs(m - want).max()); scale = 1 + float(np.abs(want).max()); worst = max(worst, err / scale)
+            if err > 1e-9 * scale: bad = bad or {"kind": "relation-fails", "series": name, "order": list(n), "abs_err": err}
         distinct += 1
         if bad: failures.append(dict(desc, **bad))
-    json.dump({"evaluations": evals, "cases": ncases, "distinct_nontrivial": distinct, "failures": failures, "distribution": dist, "samples": samples}, open(out, "w"))
+    json.dump({"evaluations": evals, "cases": ncases, "distinct_nontrivial": distinct, "failures": failures, "distribution": dist, "samples": samples,
+               "worst_abs_error": worst}, open(out, "w"), default=str)
 
 if __name__ == "__main__":
     main(int(sys.argv[1]), int(sys.argv[2]), sys.argv[3], sys.argv[4])
